@@ -84,6 +84,7 @@ type Peer struct {
 	Refused    string // "" = registered with the hub; else where it was turned away: session | upgrade | ws
 	Conn       *websocket.Conn
 	Digest     func(*Frame)
+	code       string // issued by the access API, not yet redeemed
 
 	mu         sync.Mutex
 	frames     []Frame
@@ -122,8 +123,16 @@ func (k *Kit) Join(name uint64, tokenTopic, path string, scopes []string, digest
 // made (0 = system default), so that the peer never advertises a large window: a later stall then
 // reaches the relay's writer after a few kilobytes, and the stream resumes promptly afterwards.
 func (k *Kit) JoinBuf(name uint64, tokenTopic, path string, scopes []string, digest func(*Frame), rcvbuf int) *Peer {
+	p := k.Issue(name, tokenTopic, scopes)
+	k.Connect(p, path, digest, rcvbuf)
+	return p
+}
+
+// Issue builds the peer's own token (topic, scopes) and asks the access API for a code; the
+// websocket is opened later by Connect, so other requests can reach the access API in between.
+func (k *Kit) Issue(name uint64, tokenTopic string, scopes []string) *Peer {
 	p := &Peer{Name: name, BID: fmt.Sprintf("bk-%d", name), UA: fmt.Sprintf("peer-%d", name), TokenTopic: tokenTopic,
-		Path: path, Scopes: scopes, Digest: digest, readerDone: make(chan struct{})}
+		Scopes: scopes, readerDone: make(chan struct{})}
 	now := time.Now().Unix()
 	claims := k.Relay.Claims(tokenTopic, p.BID, scopes, now-5, now-5, now+3600)
 	st, _, code := k.Relay.Session(url.PathEscape(tokenTopic), lib.Sign(claims, k.Relay.Secret))
@@ -132,6 +141,19 @@ func (k *Kit) JoinBuf(name uint64, tokenTopic, path string, scopes []string, dig
 		close(p.readerDone)
 		return p
 	}
+	p.code = code
+	return p
+}
+
+// Connect redeems the code obtained by Issue: opens the websocket on path and waits until admission
+// has returned and, if it registered, until the hub has processed the registration.
+func (k *Kit) Connect(p *Peer, path string, digest func(*Frame), rcvbuf int) {
+	if p.Refused != "" || p.code == "" {
+		return
+	}
+	code := p.code
+	p.code = ""
+	p.Path, p.Digest = path, digest
 	hdr := http.Header{}
 	hdr.Set("User-Agent", p.UA)
 	dialer := websocket.Dialer{HandshakeTimeout: 3 * time.Second}
@@ -147,7 +169,7 @@ func (k *Kit) JoinBuf(name uint64, tokenTopic, path string, scopes []string, dig
 	if err != nil {
 		p.Refused = "upgrade"
 		close(p.readerDone)
-		return p
+		return
 	}
 	p.Conn = conn
 	conn.SetPongHandler(func(string) error {
@@ -163,7 +185,6 @@ func (k *Kit) JoinBuf(name uint64, tokenTopic, path string, scopes []string, dig
 		p.Refused = "ws"
 	}
 	go p.reader()
-	return p
 }
 
 func (p *Peer) reader() {
